@@ -292,16 +292,12 @@ def check_signals(cfg, events, before, after):
 
 def _zw_only(ref, r):
     """classification aid only: does the display row `r` of the reference hold zero-width characters only?
-    Also counted: zero-width characters followed by one space on a row that was broken inside a word
-    (wrap 'space', the reference pulls the word up behind that space; urwid keeps the space as the wrap
-    point of a row of zero-width characters, e.g. b'\xcc\x81 aaa' at width 1)."""
-    if not r.cells or r.cells[0][2] != 0:
-        return False
-    wide = [(i, w) for (i, _x, w) in r.cells if w > 0]
-    if not wide:
-        return True
-    disp = ref.display()
-    return ref.wrap == "space" and r.end is None and len(wide) == 1 and wide[0][0] == r.cells[-1][0] and disp[wide[0][0]] == " "
+    (A second form -- zero-width characters followed by one displayed space on a row broken inside a word --
+    stood here for b'\xcc\x81 aaa' at width 1 while the reference pulled the word up behind that space; the
+    reference now leaves a row of zero-width characters alone as urwid does (spec/ref_editor.break_rows), so
+    that row is a plain zero-width-only row whose space is the hidden wrap point.  The second form also
+    matched '́ 中' at width 2, a row on which urwid does show the space.)"""
+    return bool(r.cells) and all(w == 0 for (_i, _x, w) in r.cells)
 
 
 def _zw_row(ref):
